@@ -123,6 +123,10 @@ func IsoFromGrpc(l GrpcIsoLevel) IsoLevel { return isoLevel.Convert(l) }
 // SeqNext draws the next global sequence number.
 func SeqNext() Seq { return sequence.Next() }
 
+// SeqRaise raises the global sequence counter to s (what Load does with the
+// highest persisted sequence): lets a run start close to a boundary of the counter.
+func SeqRaise(s Seq) { sequence.Set(s) }
+
 // ReadWriter is the pipe behind Create.
 type ReadWriter interface {
 	Read(p []byte) (int, error)
